@@ -112,6 +112,7 @@ class FnTranslator:
         self.oracles: Dict[str, str] = {}  # oracle parameter -> lean type
         self.declared: set = set(self.env)
         self.tmp = 0
+        self.reassigned: List[str] = []  # parameters assigned a new value (need a mutable shadow, not returned)
         self.try_flag: Optional[str] = None
         self.lines: List[str] = []
 
@@ -124,11 +125,15 @@ class FnTranslator:
                     self.mutated.append(tgt)
                 elif tgt and tgt.startswith("self.") and tgt[5:] in self.ms.self_fields:
                     self.self_mut = True
+            if isinstance(node, ast.Assign) and len(node.targets) == 1 and isinstance(node.targets[0], ast.Name) and node.targets[0].id in self.env and node.targets[0].id not in self.reassigned:
+                self.reassigned.append(node.targets[0].id)
             if isinstance(node, ast.Assign) and len(node.targets) == 1 and isinstance(node.targets[0], ast.Subscript):
                 tgt = dotted(node.targets[0].value)
                 if tgt and tgt.startswith("self.") and tgt[5:] in self.ms.self_fields:
                     self.self_mut = True
             if isinstance(node, ast.Assign) and len(node.targets) == 1 and dotted(node.targets[0]) in self.ms.attr_assign_events:
+                self.effects = True
+            if isinstance(node, ast.Break) and self.spec.continue_is_return:
                 self.effects = True
             if isinstance(node, ast.AugAssign):
                 tgt = dotted(node.target)
@@ -145,8 +150,8 @@ class FnTranslator:
                         pass
                     if o.may_raise:
                         self.oracles[o.may_raise] = "Nat → Bool" if o.raise_arg is not None else "Bool"
-                if d and d.startswith("self.") and d[5:] in self.mod.translated:
-                    callee = self.mod.translated[d[5:]]
+                if d and ((d.startswith("self.") and d[5:] in self.mod.translated) or (self.ms.cls is None and d in self.mod.translated)):
+                    callee = self.mod.translated[d[5:]] if d.startswith("self.") else self.mod.translated[d]
                     # mutations / effects of a callee propagate
                     for i, (pn, _) in enumerate(callee.spec.params.items()):
                         if pn in callee.mutated and i < len(node.args):
@@ -297,7 +302,7 @@ class FnTranslator:
 
     def call(self, e: ast.Call, pre: List[str]) -> Tuple[str, str]:
         d = dotted(e.func)
-        if e.keywords and not (d and d.startswith("self.") and d[5:] in self.mod.translated) and d not in self.ms.opaque:
+        if e.keywords and not (d and (d.startswith("self.") and d[5:] in self.mod.translated or d in self.mod.translated)) and d not in self.ms.opaque:
             raise Unsupported(f"keyword arguments in {ast.unparse(e)}")
         if d in ("all", "any") and len(e.args) == 1 and isinstance(e.args[0], ast.GeneratorExp):
             g = e.args[0]
@@ -360,6 +365,8 @@ class FnTranslator:
             return self.ms.getters[d]
         if d and d.startswith("self.") and d[5:] in self.mod.translated:
             return self.call_translated(self.mod.translated[d[5:]], e, pre)
+        if d and self.ms.cls is None and d in self.mod.translated:
+            return self.call_translated(self.mod.translated[d], e, pre)
         if d in self.ms.opaque:
             return self.call_opaque(d, e, pre)
         raise Unsupported(f"call {ast.unparse(e)}")
@@ -420,6 +427,14 @@ class FnTranslator:
                 b = self.fresh(tgt)
                 binders.append(b)
                 rebind.append(f"{lname(tgt)} := {b}")
+        if self.try_flag is not None:
+            # inside try/except Exception: an exception of the callee is caught here (effects the callee logged before raising are lost)
+            if result != "()":
+                raise Unsupported(f"value of {callee.spec.py_name} used inside try/except")
+            pat = "_" if not binders else binders[0] if len(binders) == 1 else "(" + ", ".join(binders) + ")"
+            arms = "\n".join("  " + r for r in rebind) or "  pure ()"
+            pre.append(f"match {call} with\n| .error _ =>\n  {self.try_flag} := true\n| .ok {pat} =>\n{arms}")
+            return result, callee.spec.ret
         if not binders:
             pre.append(f"{call}")
         elif len(binders) == 1:
@@ -436,9 +451,12 @@ class FnTranslator:
             arg0 = e.func.value if o.raise_arg == -1 else e.args[o.raise_arg]  # type: ignore[attr-defined]
             t0, _ = self.expr(arg0, pre)
             ev = f'log := log ++ ["{o.event}:" ++ toString {t0}]'
-        if o.may_raise:
-            if self.try_flag is None:
-                raise Unsupported(f"{d} may raise but is called outside try/except")
+        if o.may_raise and self.try_flag is None:
+            # outside any try of this function: the exception leaves the function (the caller may catch it)
+            if o.raise_arg is not None:
+                raise Unsupported(f"{d}: per-object raise oracle outside try/except")
+            pre.append(f'if {lname(o.may_raise)} then\n  throw (.exception "{o.event} raised")\nelse\n  {ev}')
+        elif o.may_raise:
             if o.raise_arg is not None:
                 arg = e.func.value if o.raise_arg == -1 else e.args[o.raise_arg]  # type: ignore[attr-defined]
                 t, ty = self.expr(arg, pre)
@@ -625,7 +643,11 @@ class FnTranslator:
                 self.emit(ind, "continue")
             return
         if isinstance(s, ast.Break):
-            self.emit(ind, "break")
+            if self.spec.continue_is_return and self._loop_depth == 0:
+                self.emit(ind, 'log := log ++ ["break"]')
+                self.emit(ind, f"return {self.ret_tuple('()')}")
+            else:
+                self.emit(ind, "break")
             return
         if isinstance(s, ast.With):
             for it in s.items:
@@ -691,6 +713,9 @@ class FnTranslator:
         for lo in self.spec.live_out:
             if lo not in self.mutated and lo in self.env:
                 self.emit(1, f"let mut {lname(lo)} := {lname(lo)}")
+        for ra in self.reassigned:
+            if ra not in self.mutated and ra not in self.spec.live_out:
+                self.emit(1, f"let mut {lname(ra)} := {lname(ra)}")
         if self.self_mut:
             self.emit(1, "let mut self := self")
         if self.effects:
@@ -786,5 +811,17 @@ def while_test_of() -> Callable[[ast.FunctionDef], List[ast.stmt]]:
                 r = ast.Return(value=node.test)
                 return [ast.copy_location(r, node)]
         raise Unsupported(f"no while loop in {fdef.name}")
+
+    return slicer
+
+
+def nth_try_of(n: int) -> Callable[[ast.FunctionDef], List[ast.stmt]]:
+    """slicer: the n-th (0-based, source order) `try` statement of the function, as a one-statement slice"""
+
+    def slicer(fdef: ast.FunctionDef) -> List[ast.stmt]:
+        tries = sorted((node for node in ast.walk(fdef) if isinstance(node, ast.Try)), key=lambda t: t.lineno)
+        if len(tries) <= n:
+            raise Unsupported(f"{fdef.name} has {len(tries)} try statements")
+        return [tries[n]]
 
     return slicer
